@@ -115,6 +115,14 @@ def jValue (j : Json) : E FieldValue := do
       | some n => pure (.num (.float (F64.ofBits n)))
       | none => throw "bad float bits"
     | none =>
+    match jOpt j "f32" with
+    | some f => do
+      -- a 32-bit float field: enters the engine through `From<f32>`; its value is the exact widening
+      let h ← f.getStr?
+      match hexNat h with
+      | some n => pure (.num (.float (F64.ofBits (M.widenBits n))))
+      | none => throw "bad float bits"
+    | none =>
     match jOpt j "b" with
     | some b => do pure (.bool (← b.getBool?))
     | none => throw "bad field value"
@@ -343,6 +351,16 @@ partial def jForm (j : Json) : E S.Form := do
   | .error _ =>
   match j.getObjVal? "n" with
   | .ok a => do pure (.nOf (← jNat (← a.getArrVal? 0)) (← jPfx (← a.getArrVal? 1)))
+  | .error _ =>
+  match j.getObjVal? "nbig" with
+  | .ok a => do
+    -- a count written with more digits than a JSON number carries exactly
+    let d ← (← a.getArrVal? 0).getStr?
+    match d.toNat? with
+    -- `usize` saturation: a count beyond 2^64-1 is read as 2^64-1 (either can never be reached by a
+    -- rule whose operands fit in memory); the structured formula carries the count the engine works with
+    | some n => pure (.nOf (min n 18446744073709551615) (← jPfx (← a.getArrVal? 1)))
+    | none => throw "bad count"
   | .error _ => throw "bad formula"
 
 /-- the structured view of a rule: `spec` object + the metadata fields of the document -/
